@@ -23,16 +23,22 @@ S_DEVS = ["DevCheckThenAct", "DevDoubleRelease", "DevOffByOne"]
 def decision(ctx):
     quick = ctx.quick()
     cmds, args = (S.CMDS_Q, S.ARGS_Q) if quick else (S.CMDS_T, S.ARGS_T)
-    ideal = S.d_run(ctx, cmds, args)
+    ideal = S.d_run(ctx, cmds, args, full=not quick)
     if ideal.violated:
         raise vf.Infra("transcribed decision violates the oracle (%s): spec error or a defect to transcribe as Dev" %
                        ideal.violated)
+    # sensitivity (same TLC run, POSTCONDITION DevReport): every decision deviation has a witness in the domain
+    rep = [o for t, o in ideal.prints if t == "DEVCHK"]
+    if not rep:
+        raise vf.Infra("TLC did not print the deviation report")
     caught = {}
     for d in D_DEVS:
-        r = S.d_run(ctx, S.CMDS_Q, S.ARGS_Q[:8], dev=(d,), tag="MCDdev", expect_violation=True)
-        caught[d] = r.violated
-        if r.violated != "OnlyAuthorised":
-            raise vf.Infra("deviation %s not detected by OnlyAuthorised (vacuous domain)" % d)
+        w = rep[-1].get(d, {})
+        if not w.get("found"):
+            raise vf.Infra("deviation %s has no witness in the decision domain (vacuous domain)" % d)
+        caught[d] = "%d cases, e.g. cmd=%r args=%r wl=%s pw=%s/%s" % (
+            w["n"], "".join(w["c"]["cmd"]), ["".join(a) for a in w["c"]["args"]], ["".join(x) for x in w["c"]["wl"]],
+            w["c"]["pwcfg"], w["c"]["pw"])
     vecs = [o for t, o in ideal.prints if t == "VEC"]
     if len(vecs) != ideal.distinct:
         raise vf.Infra("VEC records (%d) do not match TLC's initial states (%d)" % (len(vecs), ideal.distinct))
@@ -96,7 +102,7 @@ def sessions(ctx):
         caught[d] = r.violated
         if not r.violated:
             raise vf.Infra("deviation %s not detected by the counter invariants" % d)
-    runs = [(1, 4, 2, 5), (2, 5, 2, 5)] if quick else [(1, 6, 6, 12), (2, 8, 6, 12), (3, 8, 6, 12), (0, 6, 3, 8)]
+    runs = [(1, 4, 2, 4), (2, 4, 2, 4)] if quick else [(1, 6, 6, 12), (2, 8, 6, 12), (3, 8, 6, 12), (0, 6, 3, 8)]
     tot = {"events": 0, "traces": 0, "streams": {}, "over": 0}
     sample = None
     for maxs, threads, rounds, streams in runs:
